@@ -52,6 +52,63 @@ Definition enc_cstate (cb : cid * cstate) : list N :=
 Definition enc_state (s : state) : list N :=
   epoch s :: N.of_nat (length (cnrs s)) :: flat_map enc_cstate (cnrs s).
 
+(* ---- digest: the per-step case literal is one number (Coq reads numerals slowly) *)
+Definition hash_p : N := 2305843009213693951.  (* 2^61 - 1 *)
+Definition hash_list (l : list N) : N :=
+  fold_left (fun acc x => (acc * 1000003 + x + 1) mod hash_p) l 7.
+
+(* ---- decoder of enc_state (for the dumped state of the real database) *)
+Definition code_otype (n : N) : otype :=
+  if n =? 1 then TTombstone else if n =? 2 then TLock else if n =? 3 then TLink else TRegular.
+Definition code_opt (n : N) : option N := if n =? 0 then None else Some (n - 1).
+
+Fixpoint dec_entries (n : nat) (l : list N) : list (oid * entry) * list N :=
+  match n with
+  | O => ([], l)
+  | S n' =>
+      match l with
+      | id :: t :: sz :: ex :: a :: p :: fi :: sp :: er :: ei :: phy :: root :: r =>
+          let '(es, rest) := dec_entries n' r in
+          ((id, mkEntry (mkHdr (code_otype t) sz (code_opt ex) (code_opt a) (code_opt p) (code_opt fi)
+                               (code_opt sp) (code_opt er) (code_opt ei)) (negb (phy =? 0)) (negb (root =? 0))) :: es, rest)
+      | _ => ([], [])
+      end
+  end.
+Fixpoint dec_garb (n : nat) (l : list N) : list (oid * gmark) * list N :=
+  match n with
+  | O => ([], l)
+  | S n' =>
+      match l with
+      | id :: m :: r => let '(gs, rest) := dec_garb n' r in ((id, if m =? 0 then MDefault else MRedundant) :: gs, rest)
+      | _ => ([], [])
+      end
+  end.
+Fixpoint dec_cnrs (n : nat) (l : list N) : list (cid * cstate) :=
+  match n with
+  | O => []
+  | S n' =>
+      match l with
+      | c :: g :: no :: r =>
+          let '(es, r1) := dec_entries (N.to_nat no) r in
+          match r1 with
+          | ng :: r2 =>
+              let '(gs, r3) := dec_garb (N.to_nat ng) r2 in
+              match r3 with
+              | a :: b :: c3 :: d :: e :: f :: h :: r4 =>
+                  (c, mkC es gs (negb (g =? 0)) (mkCnt a b c3 d e f h)) :: dec_cnrs n' r4
+              | _ => []
+              end
+          | [] => []
+          end
+      | _ => []
+      end
+  end.
+Definition dec_state (l : list N) : state :=
+  match l with
+  | e :: n :: r => mkS (dec_cnrs (N.to_nat n) r) e
+  | _ => state0
+  end.
+
 Definition enc_triples (l : list (cid * oid * otype)) : list N :=
   N.of_nat (length l) :: flat_map (fun t : cid * oid * otype => [fst (fst t); snd (fst t); otype_code (snd t)]) l.
 
@@ -106,9 +163,12 @@ Definition model_views (s : state) : list (list N) :=
              garb_limits ].
 
 (* ---- cases *)
-Record obs := mkObs { ob_state : state; ob_views : list (list N) }.
-Record stepc := mkStep { sc_op : op; sc_res : list Z; sc_obs : option obs }.
+(* pass 1: per observed step only the digest of (dumped state, all view sections) *)
+Definition digest (st : list N) (views : list (list N)) : N :=
+  hash_list (st ++ flat_map (fun l => N.of_nat (length l) :: l) views).
+Record stepc := mkStep { sc_op : op; sc_res : list Z; sc_obs : option N }.
 Definition hist := list stepc.
+Definition sec_digest := 30%nat.
 
 Fixpoint diff_sections (i : nat) (a b : list (list N)) : list nat :=
   match a, b with
@@ -117,10 +177,10 @@ Fixpoint diff_sections (i : nat) (a b : list (list N)) : list nat :=
   | _, _ => [i]
   end.
 
-Definition code (h k sec : nat) : nat := ((h * 1000 + k) * 100 + sec)%nat.
+Definition code (h k sec : nat) : N := (N.of_nat h * 1000 + N.of_nat k) * 100 + N.of_nat sec.
 
-(* model vs implementation *)
-Fixpoint model_hist (h k : nat) (s : state) (l : hist) : list nat :=
+(* model vs implementation, pass 1 *)
+Fixpoint model_hist (h k : nat) (s : state) (l : hist) : list N :=
   match l with
   | [] => []
   | st :: r =>
@@ -128,17 +188,15 @@ Fixpoint model_hist (h k : nat) (s : state) (l : hist) : list nat :=
       (if list_eqb Z.eqb res (sc_res st) then [] else [code h k sec_result]) ++
       (match sc_obs st with
        | None => []
-       | Some o =>
-           (if list_eqb N.eqb (enc_state s') (enc_state (ob_state o)) then [] else [code h k sec_state]) ++
-           map (code h k) (diff_sections 0 (model_views s') (ob_views o))
+       | Some d => if digest (enc_state s') (model_views s') =? d then [] else [code h k sec_digest]
        end) ++
       model_hist h (S k) s' r
   end.
 
-Fixpoint mism_from {A} (f : nat -> A -> list nat) (i : nat) (l : list A) : list nat :=
+Fixpoint mism_from {A} (f : nat -> A -> list N) (i : nat) (l : list A) : list N :=
   match l with [] => [] | x :: r => f i x ++ mism_from f (S i) r end.
 
-Definition model_mismatches (cases : list hist) : list nat :=
+Definition model_mismatches (cases : list hist) : list N :=
   mism_from (fun i h => model_hist i 0 state0 h) 0 cases.
 
 (* ---- reference vs implementation (on the dumped state) *)
@@ -211,9 +269,6 @@ Definition subset_t (a b : list (cid * oid * otype)) : bool :=
 Fixpoint nodup_t (a : list (cid * oid * otype)) : bool :=
   match a with [] => true | x :: r => negb (existsb (triple_eqb x) r) && nodup_t r end.
 
-Definition code_otype (n : N) : otype :=
-  if n =? 1 then TTombstone else if n =? 2 then TLock else if n =? 3 then TLink else TRegular.
-
 (* decode consecutive length-prefixed triple lists *)
 Fixpoint take_triples (n : nat) (l : list N) : list (cid * oid * otype) * list N :=
   match n with
@@ -265,9 +320,7 @@ Definition ref_counters_ok (s : state) (views : list (list N)) : bool :=
   end.
 
 (* sections the reference has an opinion on; returns the failing ones *)
-Definition ref_obs (o : obs) : list nat :=
-  let s := ob_state o in
-  let v := ob_views o in
+Definition ref_obs (s : state) (v : list (list N)) : list nat :=
   let sec i := match nth_error v i with Some l => l | None => [] end in
   (if ref_counters_ok s v then [] else [sec_total]) ++
   (if ref_status_section s (epoch s) false (sec sec_exists) then [] else [sec_exists]) ++
@@ -281,15 +334,51 @@ Definition ref_obs (o : obs) : list nat :=
   (if ref_pages_section s (sec sec_pages) then [] else [sec_pages]) ++
   (if ref_expired_section s (sec sec_expired) then [] else [sec_expired]).
 
-Fixpoint ref_hist (h k : nat) (l : hist) : list nat :=
+(* pass 1: reference rules against the views of the model state.  Where the
+   digests agree these are the dumped state and the views the implementation
+   reported. *)
+Fixpoint ref_hist (h k : nat) (s : state) (l : hist) : list N :=
   match l with
   | [] => []
   | st :: r =>
+      let s' := fst (step s (sc_op st)) in
       (match sc_obs st with
        | None => []
-       | Some o => map (code h k) (ref_obs o)
-       end) ++ ref_hist h (S k) r
+       | Some _ => map (code h k) (ref_obs s' (model_views s'))
+       end) ++ ref_hist h (S k) s' r
   end.
 
-Definition ref_mismatches (cases : list hist) : list nat :=
-  mism_from (fun i h => ref_hist i 0 h) 0 cases.
+Definition ref_mismatches (cases : list hist) : list N :=
+  mism_from (fun i h => ref_hist i 0 state0 h) 0 cases.
+
+(* model and reference comparison in one replay; reference codes are offset by 50 *)
+Fixpoint both_hist (h k : nat) (s : state) (l : hist) : list N :=
+  match l with
+  | [] => []
+  | st :: r =>
+      let '(s', res) := step s (sc_op st) in
+      (if list_eqb Z.eqb res (sc_res st) then [] else [code h k sec_result]) ++
+      (match sc_obs st with
+       | None => []
+       | Some d =>
+           let v := model_views s' in
+           (if digest (enc_state s') v =? d then [] else [code h k sec_digest]) ++
+           map (fun sec => code h k (50 + sec)) (ref_obs s' v)
+       end) ++
+      both_hist h (S k) s' r
+  end.
+Definition both_mismatches (cases : list hist) : list N :=
+  mism_from (fun i h => both_hist i 0 state0 h) 0 cases.
+
+(* pass 2 (diagnosis of a failing step): operations up to the step, the dumped
+   state (enc_state encoding) and the reported sections in full. *)
+Record fullc := mkFull { fc_ops : list op; fc_state : list N; fc_views : list (list N) }.
+
+Definition full_model (i : nat) (f : fullc) : list N :=
+  let s := run (fc_ops f) in
+  (if list_eqb N.eqb (enc_state s) (fc_state f) then [] else [code i 0 sec_state]) ++
+  map (code i 0) (diff_sections 0 (model_views s) (fc_views f)).
+Definition full_ref (i : nat) (f : fullc) : list N :=
+  map (code i 0) (ref_obs (dec_state (fc_state f)) (fc_views f)).
+Definition full_model_mismatches (l : list fullc) : list N := mism_from full_model 0 l.
+Definition full_ref_mismatches (l : list fullc) : list N := mism_from full_ref 0 l.
